@@ -31,6 +31,15 @@ CHECKS = {
             "while retrying, one Fail per event, committed by the dead queue alone / error callback once and committed by main once",
             "Retry/dead-queue routing invariants checked on Pipeline.tla (all outcome sequences within the failure bound) and evaluated by TLC on "
             "traces of the real RetriableBatcher with scripted and random failures.", CORE_NOTE, "DESIGN.md §6 C09"),
+    "C10": ("TLC model checking of KafkaInput.tla (routing x completion orders; spread routing named as deviation) + traces of the real "
+            "kafka Plugin.Commit / pconsumer.consume / franz-go marks in a real spread-mode pipeline validated by TLC (KafkaMon.tla) + packing "
+            "boundary cases replayed on the real assemble/disassemble functions",
+            "MarkSafe/MarkOwn/MarkMonotone are checked exhaustively on the design (all routings of <=4-5 records over 2 partitions and 2-3 "
+            "processors, all completion orders); the real plugin's marks are read from a real franz-go client after every Commit and each "
+            "recorded step is checked by TLC against the same clauses; spread routing violates MarkSafe by design (known finding D10).",
+            "Trusted: franz-go's in-memory mark bookkeeping on a client that never connects; the broker-dependent part of Plugin.Start/Stop is "
+            "not run; actions/output are harness-owned; TLC integers are 32-bit so offsets above 2^31 are checked outside TLC with the spec's formulas.",
+            "DESIGN.md §6 C10"),
     "C06": ("TLA+ transcription of the read loop model-checked against a declarative line/offset oracle (TLC, exhaustive "
             "small scope); every TLC-exported case replayed on the real worker.work and compared",
             "TLC proves on the whole small-scope case space (all contents over {x,\\n} up to the bound x all splits into appends x "
